@@ -186,6 +186,7 @@ class Result:
         self.t0 = time.time()
         self.evaluations = 0
         self.nontrivial = set()
+        self.nontrivial_counted = 0   # distinct non-trivial cases counted elsewhere (e.g. inside a Rust enumerator)
         self.rule = ""
         self.samples = []
         self.extra = {}
@@ -232,7 +233,7 @@ class Result:
             self.extra[k] = len(v)
         cov = {
             "evaluations": int(self.evaluations),
-            "distinct_nontrivial": len(self.nontrivial),
+            "distinct_nontrivial": len(self.nontrivial) + self.nontrivial_counted,
             "rule": self.rule,
             "samples": self.samples,
             "inconclusive": len(self.inconclusive),
@@ -279,12 +280,12 @@ class Result:
                 print("VIOLATION property=%s replay=%s" % (self.pid, path))
                 print("  what: %s" % (v["what"][:1500],))
             return 1
-        if self.evaluations == 0 or len(self.nontrivial) < 2:
+        if self.evaluations == 0 or len(self.nontrivial) + self.nontrivial_counted < 2:
             print("BROKEN property=%s the monitors observed nothing (evaluations=%d, nontrivial=%d)"
                   % (self.pid, self.evaluations, len(self.nontrivial)))
             return 2
         print("HELD property=%s tier=%s seed=%d evaluations=%d distinct_nontrivial=%d inconclusive=%d wall=%.1fs"
-              % (self.pid, self.tier, self.seed, self.evaluations, len(self.nontrivial),
+              % (self.pid, self.tier, self.seed, self.evaluations, len(self.nontrivial) + self.nontrivial_counted,
                  len(self.inconclusive), time.time() - self.t0))
         return 0
 
